@@ -86,6 +86,9 @@ class C11(Engine):
                         uniq[0] += 1
                         overlay[ok] = MASK if rng.random() < 0.35 else self._val(ok, tid, uniq[0])
                 ops.append({"op": "swap", "vals": vals, "overlay": overlay, "how": rng.choice(("pos", "kw", "mixed", "mixed", "samekey", "badentry")), "exit": rng.choice(("normal", "normal", "raise", "raise", "baseexc")), "body": self.gen_ops(rng, tid, depth + 1, budget, uniq)})
+            elif r < 0.355:
+                # a variable with a `sync` partner (the deprecated and the new name of one setting): both follow the swap
+                ops.append({"op": "syncswap", "val": rng.random() < 0.5, "exit": rng.choice(("normal", "raise"))})
             elif r < 0.37 and depth > 0:
                 ops.append({"op": "delswapped"})  # `del $X` inside the block that swapped X
             elif r < 0.40 and depth > 0:
@@ -291,6 +294,22 @@ class C11(Engine):
                 elif kind == "probe_all":
                     for key in KEYS + (f"P{state['tid']}",):
                         probe(state, key, w)
+                elif kind == "syncswap":
+                    names = ("XONSH_PROMPT_AUTO_SUGGEST", "AUTO_SUGGEST")
+                    before = {n: (env.get(n, ABSENT), n in env._d) for n in names}
+                    try:
+                        with env.swap(**{names[0]: op["val"]}):
+                            inside = tuple(env.get(n, ABSENT) for n in names)
+                            if inside != (op["val"], op["val"]):
+                                viol("view.in_scope", f"thread {state['tid']} {w}: inside swap({names[0]}={op['val']}) the pair reads {inside}", path="sync", others=False)
+                            if op["exit"] == "raise":
+                                raise _Boom()
+                    except _Boom:
+                        pass
+                    after = {n: (env.get(n, ABSENT), n in env._d) for n in names}
+                    probes["sync_partner_swap"] = probes.get("sync_partner_swap", 0) + 1
+                    if after != before:
+                        viol("exit.restores", f"thread {state['tid']} {w}: swap({names[0]}={op['val']}) left (value, explicitly set) = {after}, before it was {before}", path="sync")
                 elif kind == "delswapped":
                     # only the innermost scope's own keys, and only where no overlay shadows the name
                     inner = next((l_ for l_ in reversed(state["stack"]) if not l_.get("__overlay__")), None)
